@@ -13,7 +13,8 @@
 (* no drift layer for un-injected steps), (b) which ids left the drop      *)
 (* obligation through a leak route, (c) the capacity promise.              *)
 (*                                                                         *)
-(*   o.cs[i] = <<kind, ids (model order), len, cap (-2 = usize::MAX), buf>> *)
+(*   o.cs[i] = <<kind, ids (model order), len, cap (-2 = usize::MAX), buf,  *)
+(*               start address (relative; -2 dangling, -1 unknown)>>        *)
 (*                                                                         *)
 (* Classification per record:                                              *)
 (*   BAD06 / BAD08 / BAD16  a contract clause of that property failed      *)
@@ -45,7 +46,7 @@ Slots(r)  == 1..NSlots(r)
 \* expectation of the initial step: the primary container holds ids 1..n in model order
 InitExp(r) ==
     LET k == r.cfg.kind  n == r.cfg.n  sp == r.cfg.spare IN
-    [out |-> "ok", ret |-> <<>>, num |-> <<>>, dr |-> <<>>, lk |-> <<>>, lossy |-> FALSE, inv |-> <<1>>, sp |-> FALSE, st |-> FALSE,
+    [out |-> "ok", ret |-> <<>>, num |-> <<>>, cl |-> <<>>, dr |-> <<>>, lk |-> <<>>, lossy |-> FALSE, inv |-> <<1>>, sp |-> FALSE, st |-> FALSE,
      held |-> <<>>,
      cs |-> [i \in Slots(r) |->
                 IF i = 1 THEN [k |-> k, v |-> [x \in 1..n |-> x],
@@ -59,7 +60,11 @@ Op(r, t) == r.steps[t].op
 (* comparison with the model *)
 ContEq(r, oc, ec) == oc[1] = ec.k /\ oc[3] = Len(ec.v) /\ (~Z(r) => oc[2] = ec.v)
 HeldEq(r, t) == IF Z(r) THEN Len(O(r, t).held) = Len(E(r, t).held) ELSE Range(O(r, t).held) = Range(E(r, t).held)
-StateEq(r, t) == (\A i \in Slots(r) : ContEq(r, O(r, t).cs[i], E(r, t).cs[i])) /\ HeldEq(r, t)
+\* the model predicts "full" from the exact capacity of a fixed vector: when that differs (e.g. another, equally valid,
+\* distribution of the spare capacity by split_off) the model's later expectations are void
+FixedCapEq(r, oc, ec) == (~r.std /\ ec.k = "F" /\ ec.cap >= 0) => oc[4] = ec.cap
+StateEq(r, t) == (\A i \in Slots(r) : ContEq(r, O(r, t).cs[i], E(r, t).cs[i]) /\ FixedCapEq(r, O(r, t).cs[i], E(r, t).cs[i]))
+                 /\ HeldEq(r, t)
 \* per-record context, computed once: cx.sy[t] = the observed state agreed with the model after every step up to t, ...
 Ctx(r) ==
     LET n == Len(r.steps)
@@ -79,6 +84,8 @@ RetEq(r, t) ==
     LET o == O(r, t)  e == E(r, t) IN
     /\ IF Z(r) THEN Len(o.ret) = Len(e.ret) ELSE o.ret = e.ret
     /\ e.num # <<>> => o.num = e.num
+    \* every clone was made from the element the reference clones (zero sized elements: the number of clones)
+    /\ IF Z(r) THEN TRUE ELSE Range(o.cl) = Range(e.cl)
 
 -----------------------------------------------------------------------------
 (* C08: behaves like the (std-validated) reference; capacity promises *)
@@ -94,8 +101,7 @@ CapClauses(r, t) ==
                                                               /\ ~CapGe(o.cs[i][4], e.cs[i].pr)}}
     \cup {<<t, "zst-cap-not-unlimited", i>> : i \in {i \in Slots(r) : Z(r) /\ o.cs[i][1] \in {"F", "V", "M", "R"} /\ o.cs[i][4] # -2}}
     \cup {<<t, "sized-cap-unlimited", i>> : i \in {i \in Slots(r) : ~Z(r) /\ o.cs[i][1] # "-" /\ o.cs[i][4] = -2}}
-    \cup {<<t, "fixed-cap-changed", i>> : i \in {i \in Slots(r) : o.cs[i][1] = "F" /\ e.cs[i].k = "F" /\ e.cs[i].cap >= 0
-                                                              /\ o.cs[i][4] # e.cs[i].cap}}
+
 \* buffer stability of the target slot (needs the previous observation)
 MoveClauses(r, t) ==
     IF t = 1 \/ r.steps[t].c = 0 THEN {}
@@ -103,10 +109,29 @@ MoveClauses(r, t) ==
          IF c > NSlots(r) \/ p.cs[c][1] = "-" \/ o.cs[c][1] # p.cs[c][1] THEN {}
          ELSE (IF e.st /\ o.cs[c][5] # p.cs[c][5] THEN {<<t, "moved-while-promise-suffices", c>>} ELSE {})
           \cup (IF p.cs[c][1] = "F" /\ Op(r, t) \in InPlaceOps /\ o.cs[c][5] # p.cs[c][5] THEN {<<t, "fixed-vector-moved", c>>} ELSE {})
+          \cup (IF p.cs[c][1] = "F" /\ Op(r, t) \in InPlaceOps /\ o.cs[c][4] # p.cs[c][4] THEN {<<t, "fixed-capacity-changed", c>>} ELSE {})
           \cup (IF p.cs[c][1] = "F" /\ ~Z(r) /\ Op(r, t) \in {"push", "push_with", "insert"} /\ p.cs[c][3] = p.cs[c][4]
                     /\ o.out = "ok" THEN {<<t, "full-fixed-vector-accepted", c>>} ELSE {})
+\* merge(a, b): whether the two parts are contiguous is decided by the OBSERVED addresses (the model's idea of where
+\* split_off puts the parts is implementation-shaped).  "unknown" when an address could not be related.
+MergeAdj(r, t) ==
+    LET p == O(r, t - 1)  a == p.cs[r.steps[t].c]  b == p.cs[r.steps[t].d] IN
+    IF Z(r) THEN "yes"
+    ELSE IF a[6] = -1 \/ b[6] = -1 THEN "unknown"
+    ELSE IF a[6] = -2 \/ b[6] = -2 THEN (IF a[6] = -2 /\ b[6] = -2 /\ a[3] = 0 THEN "yes" ELSE "no")
+    ELSE IF a[6] + a[3] * r.esz = b[6] THEN "yes" ELSE "no"
+MergeClauses(r, t) ==
+    LET o == O(r, t)  p == O(r, t - 1)  c == r.steps[t].c  d == r.steps[t].d  adj == MergeAdj(r, t) IN
+    IF adj = "unknown" THEN {}
+    ELSE (IF (adj = "yes") = (o.out = "ok") /\ (o.out = "ok" \/ (o.out = "panic" /\ ~o.injp)) THEN {} ELSE {<<t, "merge-outcome", 0>>})
+         \cup (IF o.out = "ok" /\ ~(o.cs[c][1] = "B" /\ o.cs[d][1] = "-" /\ o.cs[c][3] = p.cs[c][3] + p.cs[d][3]
+                                  /\ (~Z(r) => o.cs[c][2] = p.cs[c][2] \o p.cs[d][2]))
+               THEN {<<t, "merge-does-not-restore-the-whole", 0>>} ELSE {})
+         \cup (IF o.out = "panic" /\ ~(o.cs[c][1] = "-" /\ o.cs[d][1] = "-") THEN {<<t, "merge-operands-survive-panic", 0>>} ELSE {})
 ValueClauses(r, t) ==
     LET o == O(r, t)  e == E(r, t) IN
+    IF Op(r, t) = "merge" /\ ~r.std THEN MergeClauses(r, t)
+    ELSE
     (IF OutEq(r, t) THEN {} ELSE {<<t, "outcome", 0>>})
     \cup (IF RetEq(r, t) THEN {} ELSE {<<t, "returned-values", 0>>})
     \cup {<<t, "contents", i>> : i \in {i \in Slots(r) : ~ContEq(r, o.cs[i], e.cs[i])}}
@@ -167,7 +192,7 @@ PartClauses(r, cx, t) ==
     ELSE LET o == O(r, t)  e == E(r, t)  S == Involved(r, t) IN
          \* independence: a slot that the operation does not involve is untouched (contents, length, capacity, buffer)
          {<<t, "other-part-changed", i>> : i \in {i \in Slots(r) \ S : o.cs[i] # O(r, t - 1).cs[i]}}
-         \cup (IF e.sp /\ cx.sy[t - 1] /\ o.out = "ok"
+         \cup (IF (e.sp \/ (Op(r, t) = "merge" /\ cx.sy[t - 1])) /\ cx.sy[t - 1] /\ o.out = "ok"
                THEN (IF Z(r) THEN (IF LenOf(r, t, S) = LenOf(r, t - 1, S) THEN {} ELSE {<<t, "count-not-preserved", 0>>})
                      ELSE {<<t, "elements-not-partitioned", x>> :
                                x \in {x \in Range(IdsOf(r, t, S)) \cup Range(IdsOf(r, t - 1, S)) :
@@ -176,9 +201,10 @@ PartClauses(r, cx, t) ==
                     \cup (IF ~Z(r) /\ CapOf(r, t, S) # CapOf(r, t - 1, S) THEN {<<t, "capacities-do-not-add-up", 0>>} ELSE {})
                ELSE {})
          \cup (IF Op(r, t) \in SplitOps /\ Strict(r, cx, t)
-               THEN (IF OutEq(r, t) THEN {} ELSE {<<t, "outcome", 0>>})
-                    \cup (IF RetEq(r, t) THEN {} ELSE {<<t, "returned-values", 0>>})
-                    \cup {<<t, "order-or-contents", i>> : i \in {i \in Slots(r) : ~ContEq(r, o.cs[i], e.cs[i])}}
+               THEN IF Op(r, t) = "merge" THEN MergeClauses(r, t)
+                    ELSE (IF OutEq(r, t) THEN {} ELSE {<<t, "outcome", 0>>})
+                         \cup (IF RetEq(r, t) THEN {} ELSE {<<t, "returned-values", 0>>})
+                         \cup {<<t, "order-or-contents", i>> : i \in {i \in Slots(r) : ~ContEq(r, o.cs[i], e.cs[i])}}
                ELSE {})
 Fail16(r, cx) ==
     IF r.crash THEN {<<N(r), "crash", 0>>}
@@ -196,6 +222,8 @@ DriftClauses(r, cx, t) ==
     \cup (IF cx.sy[t] /\ (IF Z(r) THEN Len(o.dr) # Len(e.dr) ELSE Range(o.dr) # Range(e.dr))
           THEN {<<t, "dropped-in-another-step", 0>>} ELSE {})
     \cup (IF cx.sy[t] /\ o.xcb > 0 THEN {<<t, "more-callbacks-than-modelled", 0>>} ELSE {})
+    \cup (IF cx.sy[t - 1] /\ e.out # "inj" /\ ~StateEq(r, t) THEN {<<t, "state-differs-from-model", 0>>} ELSE {})
+    \cup (IF cx.sy[t - 1] /\ Op(r, t) = "merge" /\ ~OutEq(r, t) THEN {<<t, "merge-adjacency-differs-from-model", 0>>} ELSE {})
     \cup {<<t, "exact-capacity", i>> : i \in {i \in Slots(r) : o.cs[i][1] = e.cs[i].k /\ o.cs[i][1] # "F" /\ e.cs[i].cap >= 0
                                                           /\ cx.sy[t] /\ o.cs[i][4] # e.cs[i].cap}}
     \cup (IF t > 1 /\ r.steps[t].c > 0 /\ r.steps[t].c <= NSlots(r) /\ Op(r, t) \in InPlaceOps
